@@ -4,7 +4,7 @@ import numpy as np, pandas as pd
 from core import Result
 import proto, gen, implutil
 
-THEOREMS = []
+THEOREMS = ['C13_epoch_rule', 'C13_unique_epoch', 'C13_membership', 'C13_partition', 'C13_shift_inverse', 'C13_single_labels', 'C13_list_labels']
 RULE = ("(a) epoch_df on cycle tables of generated signals (both centrings) with epoch lengths drawn at random AND chosen so that a closing side extremum falls exactly on a "
         "multiple of the epoch length; zeroed stretches give epochs without cycles; (b) compute_features_2d(axis=None) on 2-D arrays with one option set (None / dict) and "
         "with per-epoch option lists (own thresholds per epoch), both burst methods; judge: Lean partition specification (each cycle exactly once, in the epoch containing its "
@@ -31,7 +31,8 @@ def _rows_enc(df, center):
 
 def corpus(ctx):
     return [dict(kind='e2e', seed=11, n_ep=4, L=500, kw='none', center='peak', method='cycles'),      # pre-fix I: epoch 0 re-labelled in isolation
-            dict(kind='e2e', seed=12, n_ep=5, L=400, kw='list', center='peak', method='cycles')]      # pre-fix I: empty epoch -> IndexError
+            dict(kind='e2e', seed=12, n_ep=5, L=400, kw='list', center='peak', method='cycles'),      # pre-fix I: empty epoch -> IndexError
+            dict(kind='e2e', seed=13, n_ep=4, L=500, kw='alias', center='peak', method='cycles')]     # pre-fix: [opts] * n re-labelled later epochs with defaults
 
 def generate(ctx):
     rng = ctx.rng
@@ -41,7 +42,7 @@ def generate(ctx):
                           L_mode=str(rng.choice(['random', 'coincide', 'coincide'])), L_seed=int(rng.integers(1 << 30))))
     for i in range(ctx.scale(50, 500)):
         n_ep = int(rng.integers(2, 7)); L = int(rng.choice([300, 400, 500, 750]))
-        cases.append(dict(kind='e2e', seed=int(rng.integers(1 << 30)), n_ep=n_ep, L=L, kw=str(rng.choice(['none', 'dict', 'list', 'list'])),
+        cases.append(dict(kind='e2e', seed=int(rng.integers(1 << 30)), n_ep=n_ep, L=L, kw=str(rng.choice(['none', 'dict', 'list', 'list', 'alias'])),
                           center=str(rng.choice(['peak', 'trough'])), method=str(rng.choice(['cycles', 'cycles', 'amp']))))
     return cases
 
@@ -107,10 +108,20 @@ def evaluate(ctx, cases):
                 kwv = None; o0 = {'center_extrema': 'peak', 'burst_method': 'cycles', 'threshold_kwargs': {}}
             elif c['kw'] == 'dict':
                 kwv = dict(o0, threshold_kwargs=dict(o0['threshold_kwargs']))
+            elif c['kw'] == 'alias':      # one and the same dict object for every epoch
+                d = dict(o0, threshold_kwargs=dict(o0['threshold_kwargs'])); kwv = [d] * c['n_ep']
             else:
                 kwv = [dict(_opts(c, e), threshold_kwargs=dict(_opts(c, e)['threshold_kwargs'])) for e in range(c['n_ep'])]
+            import copy
+            snap = copy.deepcopy(kwv)
             try:
                 got = implutil.quiet(compute_features_2d, sigs, fs, fr, compute_features_kwargs=kwv, axis=None, n_jobs=1)
+                # the same argument objects again: same answer, arguments untouched
+                got2 = implutil.quiet(compute_features_2d, sigs, fs, fr, compute_features_kwargs=kwv, axis=None, n_jobs=1)
+                if repr(kwv) != repr(snap):
+                    got = 'caller option objects were modified'
+                elif len(got2) != len(got) or not all(a.equals(b) for a, b in zip(got, got2)):
+                    got = 'second call with the same argument objects gives a different result'
             except Exception as e:
                 got = type(e).__name__ + ': ' + str(e)[:100]
             try:
@@ -118,7 +129,7 @@ def evaluate(ctx, cases):
                                       threshold_kwargs=dict(o0['threshold_kwargs']), return_samples=True)
             except Exception as e:
                 plan.append(dict(skip=type(e).__name__)); continue
-            nk = 1 if c['kw'] != 'list' else c['n_ep']
+            nk = 1 if c['kw'] not in ('list', 'alias') else c['n_ep']
             center = o0['center_extrema']
             reqs += ['epoch.spec %s %d %d' % (_rows_enc(flat, center), len(x), c['L']), 'flat.relabel %d %d' % (nk, c['n_ep'])]
             plan.append(dict(kind='e2e', flat=flat, got=got, center=center, j=len(reqs) - 2))
@@ -158,13 +169,13 @@ def evaluate(ctx, cases):
                 exp = build(p['flat'], p['center'], spec)
                 exp_model = [t.copy() for t in exp]
                 for e, t in enumerate(exp):      # statement: single option set keeps the flattened labels; a list re-labels every epoch with its own thresholds
-                    if c['kw'] == 'list':
-                        th = _opts(c, e)['threshold_kwargs']
+                    if c['kw'] in ('list', 'alias'):
+                        th = _opts(c, e if c['kw'] == 'list' else 0)['threshold_kwargs']
                         exp[e] = implutil.quiet(detect_bursts_cycles if c['method'] == 'cycles' else detect_bursts_amp, t.copy(), **th)
                 for e, t in enumerate(exp_model):   # model: which option set the transcription re-labels with
                     oid = int(relabel[e]) if e < len(relabel) else 0
                     if oid > 0:
-                        th = (_opts(c, oid - 1)['threshold_kwargs'] if c['kw'] == 'list' else (_opts(c, 0)['threshold_kwargs'] if c['kw'] == 'dict' else {}))
+                        th = (_opts(c, oid - 1)['threshold_kwargs'] if c['kw'] == 'list' else (_opts(c, 0)['threshold_kwargs'] if c['kw'] in ('dict', 'alias') else {}))
                         exp_model[e] = implutil.quiet(detect_bursts_cycles if c['method'] == 'cycles' or c['kw'] == 'none' else detect_bursts_amp, t.copy(), **th)
                 judge_ok = _cmp_tables(p['got'], exp, info, 'judge')
                 corr_ok = _cmp_tables(p['got'], exp_model, info, 'model')
